@@ -346,6 +346,8 @@ fn first_diff(a: &[u8], b: &[u8]) -> String {
 }
 
 pub struct HistoryStats {
+    /// wrapping sum of (step index, result digest) hashes
+    pub digest: u64,
     pub ops: u64,
     pub panics: u64,
     pub errs: u64,
@@ -364,6 +366,8 @@ pub fn run_history(h: &History, cache: &mut RefCache, stats: &mut HistoryStats) 
             OpResult::Bytes(_) => {}
         }
         let key = op_hash(&st.op);
+        let gd = got.digest();
+        stats.digest = stats.digest.wrapping_add(mix(mix(key, i as u64), mix(u64::from(gd.0), gd.1)) | 1);
         let want_digest = if let Some(d) = cache.map.get(&key) {
             cache.hits += 1;
             *d
@@ -507,7 +511,7 @@ pub fn run(ctx: &crate::RunCtx) -> (Summary, Vec<Violation>) {
     let mut viols = vec![];
     let mut cache = RefCache::default();
     let mut distinct: BTreeSet<u64> = BTreeSet::new();
-    let mut stats = HistoryStats { ops: 0, panics: 0, errs: 0 };
+    let mut stats = HistoryStats { digest: 0, ops: 0, panics: 0, errs: 0 };
     for i in 0..ctx.count {
         if i % ctx.nchild != ctx.child {
             continue;
@@ -540,6 +544,7 @@ pub fn run(ctx: &crate::RunCtx) -> (Summary, Vec<Violation>) {
         }
     }
     sum.seam_ops = stats.ops;
+    sum.digest = stats.digest;
     sum.outcomes.insert("calls_returning_error".into(), stats.errs);
     sum.outcomes.insert("calls_panicking".into(), stats.panics);
     sum.outcomes.insert("reference_cache_hits".into(), cache.hits);
@@ -554,7 +559,7 @@ fn parse_case(case: &serde_json::Value) -> Result<History, String> {
 pub fn exec(case: &serde_json::Value) -> Result<Option<Violation>, String> {
     let h = parse_case(case)?;
     let mut cache = RefCache::default();
-    let mut stats = HistoryStats { ops: 0, panics: 0, errs: 0 };
+    let mut stats = HistoryStats { digest: 0, ops: 0, panics: 0, errs: 0 };
     Ok(run_history(&h, &mut cache, &mut stats))
 }
 
@@ -565,7 +570,7 @@ pub fn minimise(case: &serde_json::Value, class: &str, site: &str) -> serde_json
         return case.clone();
     };
     let mut cache = RefCache::default();
-    let mut stats = HistoryStats { ops: 0, panics: 0, errs: 0 };
+    let mut stats = HistoryStats { digest: 0, ops: 0, panics: 0, errs: 0 };
     let fails = |h: &History, cache: &mut RefCache, stats: &mut HistoryStats| -> Option<usize> {
         run_history(h, cache, stats)
             .filter(|v| v.class == class && v.site == site)
